@@ -1,7 +1,9 @@
 """Per-property registry: theorem file, projection, monitor, non-triviality rule, known classes."""
 import hashlib
+import json
 import os
 import re
+import subprocess
 
 from compare import eq_tree, first_difference
 from sexp import parse, ser
@@ -655,7 +657,30 @@ def known_C08(prog, impl, monline, mname):
     return None
 
 
+def stage_C08(run):
+    """Instructions pushed by an extension that READ a register (C08's quantifier names them): the
+    harness's `extuse` mode analyses three fixed programs with a second extension whose instruction
+    has an operand and checks def-before-use on the function stacks directly (harness/src/extuse.rs)."""
+    from verif import HARNESS
+    out_json = os.path.join(run.dir, "extuse.json")
+    if os.path.exists(out_json):
+        line = json.load(open(out_json))["line"]
+    else:
+        try:
+            p = subprocess.run([HARNESS, "extuse"], stdout=subprocess.PIPE, stderr=subprocess.STDOUT, text=True, timeout=120)
+            line = (p.stdout.strip().splitlines() or ["(extuse fail \"no output\")"])[-1]
+        except Exception as e:  # noqa: BLE001
+            line = "(extuse fail \"%s\")" % str(e)[:100]
+        json.dump({"line": line}, open(out_json, "w"))
+    alarms = []
+    if not line.startswith("(extuse ok"):
+        alarms.append((0, "C08: an instruction pushed by an extension reads a register that no earlier instruction of the "
+                          "function stack wrote (fixed programs of harness/src/extuse.rs, not the program below): " + line[:300]))
+    return alarms, [], "", {"extension_operand_programs": line}
+
+
 PENDING["C08"] = dict(
+    stage=stage_C08,
     title="Every register that is read has been written earlier in the same function",
     projection="stacks",
     extra_files=["C08b"],
@@ -1025,7 +1050,15 @@ def judge(prop, prog, impl, model, monline):
             agree = False
             where = "unreadable output: %s" % e
     from verif import mon_get
-    ms = [mon_get(monline, m) for m, d in monitors_of(spec) if dom_ok(d, impl, monline)]
+    cls = spec.get("known_class")
+    ms = []
+    for m, d in monitors_of(spec):
+        if not dom_ok(d, impl, monline):
+            continue
+        val = mon_get(monline, m)
+        if val is False and cls and cls(prog, impl, monline, m):
+            val = True      # a recorded finding (the check prints KNOWN-FINDING for it), not an alarm
+        ms.append(val)
     return {"agree": agree, "where": where, "monitor": (None if not ms else all(x is not False for x in ms))}
 
 
